@@ -526,15 +526,24 @@ def _o6(ctx, rel):
     col.floor("writerow_sites", len(rows), 2)
     guarded = [c for c in rows if guards_of(pm, c) and isinstance(guards_of(pm, c)[-1][0], ast.Name)]
     okh = False
+    only_exists = False
     for c in guarded:
         t, pol = guards_of(pm, c)[-1]
-        for d in rd.defs_of(t):
-            v = d.value
-            if pol and isinstance(v, ast.UnaryOp) and isinstance(v.op, ast.Not) and isinstance(v.operand, ast.Call) \
-                    and call_name(v.operand) == "os.path.exists" and "state_csv_path" in u(v.operand):
-                okh = True
-    col.ob("G10", "O6", f"{rel}::{CLS}.{HIST_FN}::header-once", okh and len(guarded) == 1,
-           "the CSV header is not written exactly when the history file did not exist", rel, f.line)
+        der = rd.derives(t)
+        names = [call_name(x) for x in der.calls()]
+        on_csv = any("state_csv_path" in u(x) for x in der.calls())
+        exists = any(n_ == "os.path.exists" for n_ in names)
+        empty = any(n_ in ("os.path.getsize", "os.stat") or n_.endswith(".tell") or n_.endswith(".st_size") for n_ in names) or \
+            any(isinstance(x, ast.Attribute) and x.attr == "st_size" for e in der.exprs for x in ast.walk(e))
+        if pol and on_csv and empty:
+            okh = True
+        elif pol and on_csv and exists:
+            only_exists = True
+    col.ob("G10", "O6", f"{rel}::{CLS}.{HIST_FN}::header-iff-the-history-is-empty", okh and len(guarded) == 1,
+           "the CSV header is written only when the history file does not *exist*" if only_exists else
+           "the CSV header row is not guarded by an emptiness test of the history file", rel, f.line,
+           sample="a crash after open(path, 'a') and before the first flush leaves an existing, empty file: every later update then "
+                  "appends rows without a header and the next controller raises KeyError('epoch')")
 
 
 def _o8(ctx, rel):
@@ -628,7 +637,8 @@ def _mutants():
           "all-temporaries-before-first-replace"),
         M("history-mode-w", T, "with open(self.state_csv_path, 'a') as f:", "with open(self.state_csv_path, 'w') as f:",
           "G10/O6"),
-        M("header-always", T, "if write_header:\n    wr.writerow(names)", "wr.writerow(names)", "header-once"),
+        M("header-always", T, "if write_header:\n    wr.writerow(names)", "wr.writerow(names)", "header-iff-the-history-is-empty"),
+        M("header-only-if-missing", T, "write_header = not os.path.exists(self.state_csv_path) or os.path.getsize(self.state_csv_path) == 0", "write_header = not os.path.exists(self.state_csv_path)", "header-iff-the-history-is-empty"),
         M("save-in-other-method", T, "def get_last_epoch(self) -> int:\n    \"\"\"Return the last finished epoch from training, or 0 if no history\"\"\"",
           "def get_last_epoch(self) -> int:\n    torch.save(self.cache_hist, self.state_csv_path + '.bak')", "G10/O6"),
         M("drop-refusal", T,
